@@ -711,6 +711,7 @@ pub fn run_one(scn: u64, s: &Sched) -> OneResult {
             windows: r.get("windows").and_then(|v| v.as_bool()).unwrap_or(true),
             mode: cfg_str(&s.cfg, "mode", "always").to_string(),
             far: r.get("far").and_then(|v| v.as_bool()).unwrap_or(false),
+            hours: r.get("hours").and_then(|v| v.as_bool()).unwrap_or(false),
             hold: cfg_u64(r, "hold", 0),
         });
     }
@@ -747,6 +748,8 @@ pub struct Gen {
     windows: bool,
     mode: String,
     far: bool,
+    /// deadlines of 12 hours / 2 days and clock steps of 9 and 30 hours
+    hours: bool,
     /// the dispatch is not polled during the first `hold` steps: its very first poll then finds work (calls, faults) waiting
     hold: u64,
 }
@@ -772,6 +775,8 @@ impl Gen {
             let now = st.clock.now_ms() as i64;
             let dl = if self.far && rng.gen_range(0..4) == 0 {
                 70_000_000_000 // about 2.2 years: beyond the timer queue's range
+            } else if self.hours && rng.gen_range(0..3) == 0 {
+                now + [43_200_000i64, 172_800_000][rng.gen_range(0..2)]
             } else {
                 dls[rng.gen_range(0..dls.len())]
             };
@@ -810,6 +815,10 @@ impl Gen {
         {
             let d = [1u64, 1, 2, 5][rng.gen_range(0..4)];
             ch.push((8, json!({"a":"Tick","d":d})));
+            if self.hours {
+                let big = [32_400_000u64, 108_000_000][rng.gen_range(0..2)];
+                ch.push((2, json!({"a":"Tick","d":big})));
+            }
         }
         match self.mode.as_str() {
             "coupled" => {
@@ -868,7 +877,7 @@ pub fn random_sched(i: u64, rng: &mut StdRng, a: &Args) -> Sched {
                      "random": {"seed": rng.gen::<u32>(), "len": rng.gen_range(8..60u64),
                                 "calls": rng.gen_range(1..=a.opt_u64("calls", 5)),
                                 "faults": faults, "windows": a.opt_u64("windows", 1) == 1,
-                                "far": a.opt_u64("far", 0) == 1,
+                                "far": a.opt_u64("far", 0) == 1, "hours": a.opt_u64("hours", 0) == 1,
                                 "hold": if rng.gen_range(0..4) == 0 { rng.gen_range(3..9u64) } else { 0 }}});
     Sched {
         id: format!("r{}", i),
